@@ -102,6 +102,13 @@ struct Machine {
 		else if (cmd == "O") { int r = a[0]; std::vector<std::size_t> s(a.begin() + 1, a.end()); R[r].reorderElements(s); dump(o, r); }
 		else if (cmd == "H") { int r = a[0]; R[r].shuffle(); dump(o, r); }
 		else if (cmd == "I") { int r = a[0], q = a[1]; std::vector<std::size_t> s(a.begin() + 2, a.end()); DS t = R[r].indexedSubset(s); R[q] = t; dump(o, q); }
+		else if (cmd == "K") { // K r q t idx.. : 3-argument indexedSubset (subset + complement) on both containers
+			int r = a[0], q = a[1], t = a[2]; std::vector<std::size_t> s(a.begin() + 3, a.end());
+			Data<I> si, ci; Data<unsigned int> sl, cl;
+			R[r].inputs().indexedSubset(s, si, ci); R[r].labels().indexedSubset(s, sl, cl);
+			Shape sh = R[r].inputShape();
+			R[q] = DS(si, sl); R[t] = DS(ci, cl); R[q].inputShape() = sh; R[t].inputShape() = sh;
+			dump(o, q); dump(o, t); }
 		else if (cmd == "T") { int r = a[0], q = a[1]; R[r].makeIndependent(); DS t = splitAtElement(R[r], a[2]); R[q] = t; dump(o, r); dump(o, q); }
 		else if (cmd == "B") { int r = a[0]; R[r].makeIndependent(); repartitionByClass(R[r], a[1]); dump(o, r); }
 		else if (cmd == "Y") { int r = a[0], q = a[1]; DS t = binarySubProblem(R[r], (unsigned)a[2], (unsigned)a[3]); R[q] = t; dump(o, q); }
